@@ -1,6 +1,6 @@
 """C04 Row polarity and orientation constraints are honoured."""
 import tracecheck
-from checks.common import run_plan, first, all_of, moved
+from checks.common import run_plan, first, all_of, moved, replay_cases
 
 LEVEL = "model_checking"
 
@@ -22,8 +22,15 @@ def run(chk):
     plan = [
         dict(flavour="asan-ubsan", scen="det", runs=(1200, 30000), opts={"cb": 1}),
         dict(flavour="rel", scen="leg", runs=(800, 20000), opts={"cb": 2, "varyScale": 1}),
+        dict(flavour="rel", scen="det", runs=(800, 20000), opts={"cb": 1, "maxMovable": 14}),
     ]
+    # the code's polarity table / opposite-row function against the generator-based algebra (exhaustive)
+    replay_cases(chk, "OrientCases", "OrientCases", "polarity x row orientation table and orientation algebra")
     run_plan(chk, "C04", plan, nontrivial)
+    chk.cov["rule"] = ("exhaustive table: every (polarity, row orientation) pair and every orientation replayed into cellOrientationInRow / "
+                       "oppositeRowOrientation / isTurn; traces: legalize and placeDetailed (every Detailed callback) on random circuits with all five "
+                       "polarities on 1..6-row cells and alternating / uniform / irregular N,S,FN,FS row patterns, both build flavours; non-trivial = "
+                       "a polarised movable cell changed row or orientation; distinct by (scenario, generator seed)")
     return chk.finish()
 
 
